@@ -269,6 +269,63 @@ theorem view_item_index (v : View) (len : Nat) (k : Int) (ed : Edit) (h : delIte
   | none => simp
   | some j => simp only [Option.map_some, Option.some.injEq]; rintro rfl; exact ⟨j, rfl, rfl, rfl⟩
 
+/-- **Name indexing = integer indexing**: when `view['name']` resolves to a direct child, the index it computes is a
+valid non-negative index of the window (`_fixup_item_indices` of that int returns it unchanged, so `__getitem__`,
+`__setitem__`, `__delitem__` and `at` by name are the same operation as by that int), the element it addresses in the real
+field — view start, plus docstring offset for `_body` — is a definition of that name, and it is the first one in the
+window.  Any window, with or without docstring offset. -/
+theorem view_name_index (v : View) (names : List (Option String)) (off : Nat) (name : String) (j : Int) (r : Option Int)
+    (h : nameItem v names off name = some (j, r)) :
+    let (s, e, _) := baseIndices v (names.length - off)
+    r = none ∧ 0 ≤ j ∧ j < (e : Int) - s ∧ fixupItem (e - s) (.int j) = some (j, none) ∧
+      names[s + off + j.toNat]? = some (some name) ∧
+      (∀ q, s + off ≤ q → q < s + off + j.toNat → names[q]? ≠ some (some name)) := by
+  revert h
+  simp only [nameItem]
+  rcases hb : baseIndices v (names.length - off) with ⟨s, e, v1⟩
+  obtain ⟨hse, _, _, _⟩ := baseIndices_shape v _ s e v1 hb
+  simp only
+  cases hf : findName names (s + off) (e + off) name with
+  | none => simp
+  | some p =>
+    simp only [Option.some.injEq, Prod.mk.injEq]
+    rintro ⟨rfl, rfl⟩
+    have hmem := List.mem_of_find?_eq_some hf
+    have hpred := List.find?_some hf
+    rw [List.mem_range'_1] at hmem
+    have hp : s + off ≤ p ∧ p < e + off := by omega
+    have hj : ((p : Int) - s - off).toNat = p - s - off := by omega
+    refine ⟨rfl, by omega, by omega, ?_, ?_, ?_⟩
+    · have := (fixupOne_spec (e - s) ((p : Int) - s - off)).1
+      simp only [fixupItem, this, pyIndex]
+      have h1 : ¬ ((p : Int) - s - off < 0) := by omega
+      have h2 : (p : Int) - s - off < ((e - s : Nat) : Int) := by omega
+      simp [h1, h2]
+    · rw [hj]
+      have : s + off + (p - s - off) = p := by omega
+      rw [this]
+      simpa using hpred
+    · intro q hq1 hq2 hq
+      rw [hj] at hq2
+      -- q is an earlier element of the searched range satisfying the predicate: contradiction with `find?`
+      have hlt : q < p := by omega
+      have := List.find?_eq_some_iff_append.mp hf
+      obtain ⟨_, as, bs, hsplit, hall⟩ := this
+      have hq_mem : q ∈ List.range' (s + off) (e + off - (s + off)) := by
+        rw [List.mem_range'_1]; omega
+      rw [hsplit] at hq_mem
+      rcases List.mem_append.mp hq_mem with hqa | hqb
+      · have := hall q hqa
+        simp [hq] at this
+      · -- q after or at p in a strictly increasing list: impossible since q < p
+        have hsorted : (List.range' (s + off) (e + off - (s + off))).Pairwise (· < ·) := List.pairwise_lt_range'
+        rw [hsplit] at hsorted
+        have := (List.pairwise_append.mp hsorted).2.2
+        rcases List.mem_cons.mp hqb with rfl | hqb'
+        · omega
+        · have h2 := (List.pairwise_cons.mp (List.pairwise_append.mp hsorted).2.1).1 q hqb'
+          omega
+
 /-! ## virtual combined fields -/
 
 /-- **Dict `_all`**: the virtual list and the pair of real fields determine each other, element `i` is
@@ -469,6 +526,8 @@ example : putSlice [10, 11, 12, 13, 14] 1 3 [7, 8, 9] = [10, 7, 8, 9, 13, 14] :=
 example : setItem ⟨1, some 4⟩ 6 (.slice (some (-2)) none) ≠ none := by decide
 example : (baseIndices ⟨5, some 9⟩ 3) = (3, 3, ⟨3, some 3⟩) := by decide    -- healing after the field shrank
 example : window ⟨1, some 4⟩ [0, 1, 2, 3, 4, 5] = [1, 2, 3] := by decide
+example : nameItem ⟨1, none⟩ [none, some "f", none, some "g"] 1 "g" = some (1, none) := by decide   -- `_body[1:]['g']` with docstring
+example : nameItem ⟨2, some 4⟩ [some "f", none, none, some "g"] 0 "f" = none := by decide           -- outside the window
 example : mergeArglikes (fun (x : Nat × Nat × Bool) => (x.1, x.2.1)) [(1, 2, false), (1, 9, false)] [(1, 5, true), (2, 0, true)]
     = [(1, 2, false), (1, 5, true), (1, 9, false), (2, 0, true)] := by decide
 example : argsOfAll (argsAll (⟨[1], [2, 3], some 4, [5, 6], [none, some 60], some 7, [20, 30]⟩ : Arguments Nat Nat))
